@@ -41,6 +41,8 @@ type genCfg struct {
 	LineBreak                                 string // "" = LF; "\r\n" or "\r": the whole document uses this line break
 	Huge                                      bool   // a block comment of more than 1 MiB among the top-level directives
 	MacroLadder                               int    // n macros, each pasting the next one twice (acyclic; only the last is pasted for real)
+	RecursiveOr                               bool   // OR types that refer back to themselves, used as Headers/Body/Query/Request
+	Abyss                                     int    // a TYPE whose body is nested this deep on one line (arrays if even, objects if odd)
 	LadderTop                                 bool   // ... unless this is set: then the first one is pasted, and the expansion has 2^n directives
 	MutualTypesMissing                        bool   // a long type with an unknown reference and a short type referring back to it, the short one last
 	NoHTTP                                    bool   // no URL / method directives outside macros
@@ -462,7 +464,11 @@ func generateDoc(r *rng, cfg genCfg) *Doc {
 				pb = []string{"{", `  "id": 1 // ` + fuzzRules[r.n(len(fuzzRules))], "}"}
 			}
 			if cfg.PathBodyFuzz {
-				switch r.n(7) {
+				switch r.n(9) {
+				case 7:
+					pb = []string{"{", `  "id": 1,`, `  "x": {"y": 1},`, `  "z": [1, 2],`, `  "w": {"v": {"u": true}}`, "}"}
+				case 8:
+					pb = []string{"{", `  "id": {"a": 1},`, `  "x": [[1]]`, "}"}
 				case 0:
 					if t := g.refType(false); t != "" {
 						pb = []string{"@" + t}
@@ -519,8 +525,38 @@ func generateDoc(r *rng, cfg genCfg) *Doc {
 			body = append(body, &Node{KW: "URL", Params: "/unused/{id}", Kids: []*Node{{KW: "Path", Body: pb}, {KW: "GET", Kids: []*Node{{KW: "200", Params: "any"}}}}})
 		}
 	}
+	if cfg.RecursiveOr {
+		// OR types that lead back to themselves, used where an object is expected
+		body = append(body,
+			&Node{KW: "TYPE", Params: "@roLeaf", Body: []string{"{", `  "v": 1`, "}"}},
+			&Node{KW: "TYPE", Params: "@ro0", Body: []string{"@ro1 | @roLeaf"}},
+			&Node{KW: "TYPE", Params: "@ro1", Body: []string{"@ro0 | @roLeaf"}},
+			&Node{KW: "TYPE", Params: "@roSelf", Body: []string{"@roSelf | @roLeaf"}})
+		t := []string{"@ro0", "@roSelf", "@ro1"}[r.n(3)]
+		var kid *Node
+		switch r.n(4) {
+		case 0:
+			kid = &Node{KW: "Request", Kids: []*Node{{KW: "Headers", Body: []string{t}}, {KW: "Body", Body: []string{t}}}}
+		case 1:
+			kid = &Node{KW: "Query", Params: `"v=1"`, Body: []string{t}}
+		case 2:
+			kid = &Node{KW: "Request", Body: []string{t}}
+		default:
+			kid = &Node{KW: "200", Kids: []*Node{{KW: "Headers", Body: []string{t}}, {KW: "Body", Body: []string{t}}}}
+		}
+		body = append(body, &Node{KW: "POST", Params: "/recor", Kids: []*Node{kid, {KW: "204", Params: "empty"}}})
+	}
 	if cfg.RPC {
-		u := &Node{KW: "URL", Params: "/rpc"}
+		rpcPath := "/rpc"
+		switch r.n(10) {
+		case 0, 1:
+			rpcPath = "/res0/{id}/rpc" // below a resource whose Path directive describes {id}
+		case 2:
+			rpcPath = "/res0/{id}"
+		case 3:
+			rpcPath = "/{lang}/rpc"
+		}
+		u := &Node{KW: "URL", Params: rpcPath}
 		u.Kids = append(u.Kids, &Node{KW: "Protocol", Params: "json-rpc-2.0"})
 		for k := 0; k <= r.n(3); k++ {
 			m := &Node{KW: "Method", Params: g.ident("call", k)}
@@ -567,6 +603,13 @@ func generateDoc(r *rng, cfg genCfg) *Doc {
 			body = append(body, m)
 		}
 		body = append(body, &Node{KW: "GET", Params: "/macrograph", Kids: []*Node{{KW: "200", Params: "any"}, {KW: "PASTE", Params: "@" + g.ident("gm", r.n(n))}}})
+	}
+	if cfg.Abyss > 0 {
+		open, close := "[", "]"
+		if cfg.Abyss%2 == 1 {
+			open, close = `{"a": `, "}"
+		}
+		body = append(body, &Node{KW: "TYPE", Params: "@abyss", Body: []string{strings.Repeat(open, cfg.Abyss) + "1" + strings.Repeat(close, cfg.Abyss)}})
 	}
 	if cfg.MacroLadder > 0 {
 		n := cfg.MacroLadder
